@@ -144,7 +144,43 @@ func runC18(r *Run) {
 			return nil
 		}
 		rp, cp := visitU("client.Request.path"), visitU("client.Client.path")
-		r.check(rp != nil && cp != nil && precedes(rp, cp), "parserRequestURL:path-params:request-before-client", r.fpos(u), "request path parameters are substituted first (first wins)", "client-level path parameters are substituted before request-level ones")
+		okPath := rp != nil && cp != nil && precedes(rp, cp)
+		how := "request path parameters are substituted first (first wins)"
+		if (rp == nil && cp == nil) || (rp != nil && rp == cp) {
+			// both levels merged into one map before the substitution: the request level is written last (last wins)
+			mergeOf := func(field string) ssa.Instruction {
+				for _, b := range u.Blocks {
+					for _, in := range b.Instrs {
+						mu, ok := in.(*ssa.MapUpdate)
+						if !ok {
+							continue
+						}
+						if dependsOn(mu.Value, func(v ssa.Value) bool {
+							ex, ok := v.(*ssa.Extract)
+							if !ok {
+								return false
+							}
+							nx, ok := ex.Tuple.(*ssa.Next)
+							if !ok {
+								return false
+							}
+							rg, ok := nx.Iter.(*ssa.Range)
+							return ok && dependsOn(rg.X, func(x ssa.Value) bool { return loadOfField(x, field) }) != nil
+						}) != nil {
+							return in
+						}
+					}
+				}
+				return nil
+			}
+			mc, mr := mergeOf("client.Client.path"), mergeOf("client.Request.path")
+			if mc != nil && mr != nil {
+				sameMap := mc.(*ssa.MapUpdate).Map == mr.(*ssa.MapUpdate).Map
+				okPath = sameMap && precedes(mc, mr)
+				how = "both levels are merged into one map, the request level written last (last wins)"
+			}
+		}
+		r.check(okPath, "parserRequestURL:path-params:request-before-client", r.fpos(u), how, "client-level path parameters are substituted before request-level ones")
 		cq, rq := visitU("client.Client.params"), visitU("client.Request.params")
 		okQ := cq != nil && rq != nil
 		for _, v := range []ssa.Instruction{cq, rq} {
@@ -224,6 +260,29 @@ func runC18(r *Run) {
 				return ok && loadOfField(mu.Map, "client.CookieJar.hostCookies")
 			}
 			funcs := append([]*ssa.Function{f}, anonFuncsDeep(f)...)
+			// a change written as a shortening re-slice: x = x[:len(x)-k] (after the last element was moved elsewhere)
+			for _, b := range f.Blocks {
+				for _, in := range b.Instrs {
+					sl, ok := in.(*ssa.Slice)
+					if !ok || sl.High == nil || sl.Low != nil || !fromLoad(sl.X) {
+						continue
+					}
+					bo, ok := sl.High.(*ssa.BinOp)
+					if !ok || bo.Op != token.SUB {
+						continue
+					}
+					if k, isInt := constInt(asConst(bo.Y)); !isInt || k < 1 {
+						continue
+					}
+					if lc, ok := bo.X.(*ssa.Call); !ok || calleeName(&lc.Call) != "builtin:len" {
+						continue
+					}
+					n++
+					_, hit := reach(pointAfter(in), isReturn, nil, isStoreBack)
+					r.check(hit == nil, f.Name()+":store-back-after-change", r.pos(in), "every path from the slice change to return stores the slice back into hostCookies",
+						f.Name()+" shortens the host's cookie slice but does not store the result back: the jar keeps its old length, so a purged (pool-released) cookie object stays referenced and later shows up with another host's content")
+				}
+			}
 			for _, fn := range funcs {
 				for _, c := range callsMatching(fn, false, func(n string) bool { return n == "builtin:append" || strings.HasPrefix(n, "slices.Delete") }) {
 					if !fromLoad(c.Common.Args[0]) && cellName(c.Common.Args[0]) == "" {
@@ -501,6 +560,36 @@ func runC18(r *Run) {
 		if cuts == 0 {
 			r.ok("client:no-plain-colon-cut", "", fmt.Sprintf("no host is cut at a ':' located by a plain search; %d port-aware splits", aware))
 		}
+	})
+
+	r.rule("R13", "the request URL is cut into path, query and fragment at the first `?` / `#` only: a cut that splits at every separator and keeps two pieces drops what follows a second one (E3)", func() {
+		u := r.Fn(cliPkg, "parserRequestURL")
+		n := 0
+		for _, c := range callsIn(u, false) {
+			switch c.Name {
+			case "strings.Split", "strings.SplitN", "strings.Cut", "strings.Index", "strings.IndexByte", "strings.SplitAfterN":
+			default:
+				continue
+			}
+			sep, ok := resolveLiteral(r, c.Common.Args[1], 0)
+			if !ok {
+				if k, isInt := constInt(asConst(stripValue(c.Common.Args[1]))); isInt {
+					sep, ok = string(rune(k)), true
+				}
+			}
+			if !ok || (sep != "?" && sep != "#") {
+				continue
+			}
+			n++
+			first := c.Name != "strings.Split"
+			if c.Name == "strings.SplitN" || c.Name == "strings.SplitAfterN" {
+				k, isInt := constInt(asConst(c.Common.Args[2]))
+				first = isInt && k == 2
+			}
+			r.check(first, fmt.Sprintf("parserRequestURL:cut-at-%q#%d:first-only", sep, n), r.pos(c.Instr), "the URL is cut at the first separator",
+				fmt.Sprintf("the URL is split at every %q and only the first two pieces are used: in /p?a=b?c&d=e the query sent is a=b — `c&d=e` configured on the request never arrives", sep))
+		}
+		r.atLeast("cuts of the URL at ? / #", n, 2)
 	})
 
 	r.rule("R9", "keys stored into the host map are private copies (E3): a map assignment replaces the stored key string", func() {
@@ -886,6 +975,21 @@ func runC18(r *Run) {
 		}
 		r.check(sorts > 0 && total, "PathParam.VisitAll:total-order", r.fpos(v), "the keys are sorted with a comparator that compares the keys themselves",
 			"the path parameters are visited in an order that leaves keys of equal length in map order: with {ns: \"acme:id\", id: \"7\"} on /api/:ns/items/:id the URL is /api/acme:id/items/7 or /api/acme7/items/7 from one call to the next")
+		// … over the parameters of both levels at once: two passes, each ordered on its own, let a short name of the
+		// first pass pre-empt a longer name of the second
+		passes := 0
+		for _, c := range callsIn(u, false) {
+			if !strings.HasSuffix(c.Name, "PathParam).VisitAll") {
+				continue
+			}
+			for _, a := range c.Common.Args {
+				if mc, ok := a.(*ssa.MakeClosure); ok && len(callsMatching(mc.Fn.(*ssa.Function), false, nameIs("strings.ReplaceAll", "strings.Replace"))) > 0 {
+					passes++
+				}
+			}
+		}
+		r.check(passes == 1, "parserRequestURL:one-ordered-pass", r.fpos(u), "the path parameters of the client and of the request are substituted in one ordered pass",
+			fmt.Sprintf("path parameters are substituted in %d passes (request level, then client level), each ordered longest-name-first on its own: a request-level :id is replaced before the client-level :idx is looked at — client {idx: 2} + request {id: 1} on /u/:idx sends /u/1x", passes))
 		r.check(bad == "", "PathParam.VisitAll:ordered", r.fpos(v), "the callback is not invoked from inside a map iteration (keys are collected and ordered first)",
 			"path parameters are handed to the substitution in map-iteration order ("+bad+"): with the names id and idx, /u/:idx becomes /u/2 or /u/1x from one call to the next — the request is not a deterministic function of the configuration")
 	})
